@@ -142,7 +142,9 @@ var Codes = [][]byte{
 
 const FirstDeleg = 4
 
-func isDeleg(code []byte) bool { return len(code) == 23 && bytes.HasPrefix(code, []byte{0xef, 0x01, 0x00}) }
+func isDeleg(code []byte) bool {
+	return len(code) == 23 && bytes.HasPrefix(code, []byte{0xef, 0x01, 0x00})
+}
 
 // Amounts is the amount universe (index into it is stored in ops).
 var Amounts = []*big.Int{
@@ -198,13 +200,13 @@ func newRefs() *TxRefs {
 
 // Pair is a StateDB and its model, executed in lock-step.
 type Pair struct {
-	F      Fork
-	S      *state.StateDB
-	M      *am.State
-	Block  uint64
-	Err    *Failure
-	Stats  map[string]int
-	Refs   *TxRefs
+	F       Fork
+	S       *state.StateDB
+	M       *am.State
+	Block   uint64
+	Err     *Failure
+	Stats   map[string]int
+	Refs    *TxRefs
 	LastBAL *bal.ConstructionBlockAccessList // result of the last Finalise (Amsterdam)
 	// OnTxEnd, if set, is called after EndTx on both sides with the pre-transaction model accounts.
 	OnTxEnd func(p *Pair, pre map[am.Address]*am.Account, index uint32, refs *TxRefs, list *bal.ConstructionBlockAccessList)
@@ -1118,12 +1120,12 @@ func genOp(p *Pair, rng *rand.Rand, cfg GenCfg) Op {
 
 // Genesis describes a committed starting state.
 type GenesisAccount struct {
-	Addr    int               `json:"addr"`
-	Nonce   uint64            `json:"nonce"`
-	Balance int               `json:"balance_idx"`
-	Code    int               `json:"code_idx"`
-	Storage map[int]int       `json:"storage,omitempty"` // slot idx -> val idx
-	Empty   bool              `json:"empty,omitempty"`
+	Addr    int         `json:"addr"`
+	Nonce   uint64      `json:"nonce"`
+	Balance int         `json:"balance_idx"`
+	Code    int         `json:"code_idx"`
+	Storage map[int]int `json:"storage,omitempty"` // slot idx -> val idx
+	Empty   bool        `json:"empty,omitempty"`
 }
 
 // GenGenesis draws a starting state. Contracts have nonce 1 (post-158 creation) and code;
